@@ -1,5 +1,5 @@
 import GoldModel.Model.Grammar
-import GoldModel.Props.C16
+import GoldModel.Props.C16Spec
 import GoldModel.Drive.Lint
 -- @mode lintspec Gold.Drive.LintSpecMode.run
 /-! driver mode `lintspec`: what the PROPERTY's rules (specifications of `Props/C15`, `Props/C16`)
@@ -24,8 +24,7 @@ def run (args : List String) : String :=
     let (t, _, _) := parseGold ts
     let evs := fileEvents t.kids
     let g := ((methodsOf evs).flatMap guardsOf ++
-      (if (headerOf evs).all (fun e => !underscoreFirst e.node.ident) then [] else ["underscore"]) ++
-      (if (headerOf evs).all (fun e => e.node.kind != "lvar_decl") then [] else ["hdrDecl"])).eraseDups
+      (if HeaderOK (headerOf evs) then [] else ["header"])).eraseDups
     s!"L={",".intercalate (LintMode.canon (fileSpec asciiUpper evs))} G={if g.isEmpty then "ok" else ",".intercalate g}"
 
 end Gold.Drive.LintSpecMode
